@@ -9,6 +9,7 @@ import OdmlModel.Model.DictDoc
 import OdmlModel.Proofs.Dict
 import OdmlModel.Proofs.DictRead
 import OdmlModel.Proofs.DictRound
+import OdmlModel.Proofs.DictRefuse
 
 namespace C02
 open Dict
@@ -69,52 +70,52 @@ def C02_statement : Prop :=
     readDict lib m (t.apply (wrap (writeDoc d))) = .ok (d, [])
 
 /-- Save then load is the identity, for documents of any size:
-    valid (`wfDoc`), attribute values among None / bool / int / float / str (`dictRepr`; this now
-    includes the falsy ones: 0, 0.0, False, ""), no odML n-tuple values (`tupleFree`).
-    `t` is any transport satisfying the json / yaml scalar contract, with any key order. -/
+    valid (`wfDoc`), attribute values among None / bool / int / float / str and no comma inside an
+    item of an odML n-tuple (`dictRepr`; this includes the falsy attribute values 0, 0.0, False, ""
+    and n-tuple values of any arity). `t` is any transport satisfying the json / yaml scalar
+    contract, with any key order. -/
 theorem dict_roundtrip_partial (lib : Lib) (t : Transport) (m : Mode) (d : Doc) (sc : ScalarCodec t)
-    (hwf : wfDoc lib d = true) (hr : dictRepr d = true) (htf : tupleFree d = true) :
+    (hwf : wfDoc lib d = true) (hr : dictRepr d = true) :
     readDict lib m (t.apply (wrap (writeDoc d))) = .ok (d, []) :=
-  readDict_denote lib m _ d (denote_write sc lib d hwf hr htf)
+  readDict_denote lib m _ d (denote_write sc lib d hwf hr)
 
 /-- The written dictionary is in the domain of `denote` and denotes the document itself. -/
 theorem write_denotes (lib : Lib) (t : Transport) (d : Doc) (sc : ScalarCodec t)
-    (hwf : wfDoc lib d = true) (hr : dictRepr d = true) (htf : tupleFree d = true) :
+    (hwf : wfDoc lib d = true) (hr : dictRepr d = true) :
     denote lib (t.apply (wrap (writeDoc d))) = some d :=
-  denote_write sc lib d hwf hr htf
+  denote_write sc lib d hwf hr
 
 /-- The three concrete transports: the dictionary handed over in memory, JSON (date, time and
     datetime objects come back as strings), YAML (times come back as strings, keys sorted). -/
 theorem roundtrip_direct (lib : Lib) (m : Mode) (d : Doc)
-    (hwf : wfDoc lib d = true) (hr : dictRepr d = true) (htf : tupleFree d = true) :
+    (hwf : wfDoc lib d = true) (hr : dictRepr d = true) :
     readDict lib m (Transport.direct.apply (wrap (writeDoc d))) = .ok (d, []) :=
-  dict_roundtrip_partial lib _ m d direct_codec hwf hr htf
+  dict_roundtrip_partial lib _ m d direct_codec hwf hr
 
 theorem roundtrip_json (lib : Lib) (m : Mode) (d : Doc)
-    (hwf : wfDoc lib d = true) (hr : dictRepr d = true) (htf : tupleFree d = true) :
+    (hwf : wfDoc lib d = true) (hr : dictRepr d = true) :
     readDict lib m (Transport.json.apply (wrap (writeDoc d))) = .ok (d, []) :=
-  dict_roundtrip_partial lib _ m d json_codec hwf hr htf
+  dict_roundtrip_partial lib _ m d json_codec hwf hr
 
 theorem roundtrip_yaml (lib : Lib) (m : Mode) (d : Doc)
-    (hwf : wfDoc lib d = true) (hr : dictRepr d = true) (htf : tupleFree d = true) :
+    (hwf : wfDoc lib d = true) (hr : dictRepr d = true) :
     readDict lib m (Transport.yaml.apply (wrap (writeDoc d))) = .ok (d, []) :=
-  dict_roundtrip_partial lib _ m d yaml_codec hwf hr htf
+  dict_roundtrip_partial lib _ m d yaml_codec hwf hr
 
 /-- JSON and YAML always load to the same document as each other (both are `readDict` of the same
     written dictionary, seen through two transports), in any combination of reader modes.
     Remark: the XML pipeline (C01) yields the same document up to its whitespace trimming. -/
 theorem json_yaml_agree (lib : Lib) (m₁ m₂ : Mode) (d : Doc)
-    (hwf : wfDoc lib d = true) (hr : dictRepr d = true) (htf : tupleFree d = true) :
+    (hwf : wfDoc lib d = true) (hr : dictRepr d = true) :
     readDict lib m₁ (Transport.json.apply (wrap (writeDoc d))) =
     readDict lib m₂ (Transport.yaml.apply (wrap (writeDoc d))) := by
-  rw [roundtrip_json lib m₁ d hwf hr htf, roundtrip_yaml lib m₂ d hwf hr htf]
+  rw [roundtrip_json lib m₁ d hwf hr, roundtrip_yaml lib m₂ d hwf hr]
 
 /-- Round trip of one Property dictionary (the unit the key loop works on). -/
 theorem prop_roundtrip (lib : Lib) (t : Transport) (m : Mode) (p : Prp) (ws : List Warn)
-    (sc : ScalarCodec t) (hwf : wfProp lib p = true) (hr : reprProp p = true)
-    (htf : tupleFreeProp p = true) :
+    (sc : ScalarCodec t) (hwf : wfProp lib p = true) (hr : reprProp p = true) :
     parseProp lib m (t.apply (writeProp p)) ws = .ok (some p, ws) :=
-  parseProp_denote lib m _ p ws (denoteProp_write sc lib p hwf hr htf)
+  parseProp_denote lib m _ p ws (denoteProp_write sc lib p hwf hr)
 
 /-- Stored cardinalities survive: the list form written for a cardinality is parsed and
     re-formatted to the same cardinality (reuses C09.persist_list and C09.stored_fixpoint). -/
@@ -145,17 +146,29 @@ def falsyDoc : Doc :=
 
 /-- The hypotheses of the round-trip theorem are satisfiable by a document full of falsy
     attribute values, which therefore survives JSON and YAML (fixed defect: they were dropped). -/
-example : wfDoc idLib falsyDoc = true ∧ dictRepr falsyDoc = true ∧ tupleFree falsyDoc = true := by
+example : wfDoc idLib falsyDoc = true ∧ dictRepr falsyDoc = true := by
   decide
 
 theorem falsy_attributes_kept (m : Mode) :
     readDict idLib m (Transport.json.apply (wrap (writeDoc falsyDoc))) = .ok (falsyDoc, []) ∧
     readDict idLib m (Transport.yaml.apply (wrap (writeDoc falsyDoc))) = .ok (falsyDoc, []) :=
-  ⟨roundtrip_json idLib m falsyDoc (by decide) (by decide) (by decide),
-   roundtrip_yaml idLib m falsyDoc (by decide) (by decide) (by decide)⟩
+  ⟨roundtrip_json idLib m falsyDoc (by decide) (by decide),
+   roundtrip_yaml idLib m falsyDoc (by decide) (by decide)⟩
 
 example : denote idLib (wrap (writeDoc falsyDoc)) = some falsyDoc :=
-  write_denotes idLib Transport.direct falsyDoc direct_codec (by decide) (by decide) (by decide)
+  write_denotes idLib Transport.direct falsyDoc direct_codec (by decide) (by decide)
+
+/-- A Property holding two 2-tuples (items with spaces, quotes, brackets inside). -/
+def tupleProp : Prp :=
+  { id := "i", name := .str "p", values := [.arr [.str "a b", .str "(c"], .arr [.str "\"", .str "]"]],
+    unit := .null, definition := .null, dependency := .null, dependencyValue := .null,
+    uncertainty := .null, reference := .null, dtype := some "2-tuple", valueOrigin := .null,
+    valCard := none }
+
+/-- n-tuple values are inside the proved round trip (non-vacuity of `dictRepr` for tuples). -/
+example (m : Mode) : parseProp idLib m (Transport.json.apply (writeProp tupleProp)) [] =
+    .ok (some tupleProp, []) :=
+  prop_roundtrip idLib _ m tupleProp [] json_codec (by decide) (by decide)
 
 /-- An n-tuple Property whose item contains a comma. -/
 def commaProp : Prp :=
@@ -164,14 +177,33 @@ def commaProp : Prp :=
     uncertainty := .null, reference := .null, dtype := some "2-tuple", valueOrigin := .null,
     valCard := none }
 
-/-- `C02_statement` is false of the code as it is: a valid n-tuple Property whose item contains a
-    comma is written as the text `[(a,b;c)]`, which the values setter splits at every comma; the
-    strict reader raises `ParserException`, the lenient reader drops the Property with a warning.
-    (Known finding C02-tuple-item-comma.) -/
+/-- Never written in altered form: for every valid document whose optional attributes are
+    None / bool / int / float / str, the writer either raises `ParserException` (`writeRefused`,
+    nothing is written) or the saved text loads back to the very same document, without warnings,
+    in both reader modes, through every transport satisfying the scalar contract. -/
+theorem dict_roundtrip_or_refused (lib : Lib) (t : Transport) (m : Mode) (d : Doc)
+    (sc : ScalarCodec t) (hwf : wfDoc lib d = true) (ha : atomsDoc d = true) :
+    writeRefused d = true ∨ readDict lib m (t.apply (wrap (writeDoc d))) = .ok (d, []) := by
+  cases hnr : writeRefused d with
+  | true => exact Or.inl rfl
+  | false =>
+    exact Or.inr (dict_roundtrip_partial lib t m d sc hwf (dictRepr_of_not_refused lib d hwf ha hnr))
+
+/-- The refusal is exact: on valid documents the writer refuses precisely those the bracketed
+    tuple text cannot carry (a comma inside an n-tuple item). -/
+theorem refused_iff_not_repr (lib : Lib) (d : Doc) (hwf : wfDoc lib d = true)
+    (ha : atomsDoc d = true) : writeRefused d = false ↔ dictRepr d = true :=
+  ⟨dictRepr_of_not_refused lib d hwf ha, not_refused_of_dictRepr d⟩
+
+/-- `C02_statement` at full strength is false of the code as it is: a valid n-tuple Property
+    whose item contains a comma is refused by the writer (ParserException, since fix 0846f56) -
+    so such a document cannot be saved as JSON / YAML at all; the text the unfixed writer produced,
+    `[(a,b;c)]`, is split at every comma by the values setter (strict reader: ParserException,
+    lenient reader: the Property is dropped with a warning). Known finding C02-tuple-item-comma. -/
 theorem tuple_comma_counterexample :
-    wfProp idLib commaProp = true ∧
+    wfProp idLib commaProp = true ∧ propWriteRefused commaProp = true ∧
     parseProp idLib .strict (writeProp commaProp) [] = .error .parser ∧
     parseProp idLib .lenient (writeProp commaProp) [] = .ok (none, [.propNotCreated]) := by
-  refine ⟨by decide, by rfl, by rfl⟩
+  refine ⟨by decide, by decide, by rfl, by rfl⟩
 
 end C02
